@@ -13,6 +13,7 @@ PROP = {
     ],
     "runs": LOOP_RUNS,
     "keys": ["read-*", "readall-*", "write-*", "writeall-*", "peer-received-*"],
+    "secondary_keys": ["read-count-*", "read-success-*", "readall-*", "write-count-*", "write-success-*", "writeall-*", "peer-received-*"],
     "rule": LOOP_RULE + "; payloads are position-dependent (byte i of the stream to object k is (7i+13k+1) mod 251, byte j of write op id "
                         "is (11j+17id+3) mod 251) so a lost, duplicated, reordered or invented byte is visible at the first wrong offset",
     "trusted_base": LOOP_TB + ["Sonic/Model/Xfer.lean: hand-written model of the transfer loops (asyncReadNow/asyncWriteNow + continuation) "
